@@ -662,9 +662,13 @@ func (cg *caseGen) scopeShape(cx ectx) (*pvcase.Expr, bool) {
 	l := pickStr(cg.r, valueLabels)
 	e1, n1 := cg.expr(cx)
 	e2 := cg.nonNullLeaf()
-	inner := seqOf(cg.nonNullLeaf(), &pvcase.Expr{Kind: pvcase.KLab, Label: l, Kids: []*pvcase.Expr{e2}})
+	lead := cg.nonNullLeaf()
+	inner := seqOf(lead, &pvcase.Expr{Kind: pvcase.KLab, Label: l, Kids: []*pvcase.Expr{e2}})
+	// the same text without the label: what must follow a lookahead for the lookahead to succeed
+	plain := seqOf(lead.Clone(), e2.Clone())
 	if cg.chance(0.3) {
 		inner = &pvcase.Expr{Kind: pvcase.KLab, Label: l, Kids: []*pvcase.Expr{e2}}
+		plain = e2.Clone()
 	}
 	if cg.f.pred && cg.chance(0.3) {
 		inner = seqOf(inner, &pvcase.Expr{Kind: pvcase.KAndc}) // a reader inside: sees e2's value
@@ -678,9 +682,9 @@ func (cg *caseGen) scopeShape(cx ectx) (*pvcase.Expr, bool) {
 	case 3:
 		w = un(pvcase.KOpt, un(pvcase.KPlus, inner))
 	case 4:
-		w = un(pvcase.KAnd, inner)
+		w = seqOf(un(pvcase.KAnd, inner), plain) // the lookahead is followed by the text it looks for
 	case 5:
-		w = un(pvcase.KNot, un(pvcase.KNot, inner))
+		w = seqOf(un(pvcase.KNot, un(pvcase.KNot, inner)), plain)
 	case 6:
 		ch := cg.newChoice()
 		ch.Kids = []*pvcase.Expr{inner, un(pvcase.KOpt, cg.nonNullLeaf())}
